@@ -329,7 +329,7 @@ impl HistSc {
 // generation
 // ---------------------------------------------------------------------------------------------
 
-const NUMS: [&str; 8] = ["0", "-0", "1", "1.0", "1e2", "10", "2", "-1.5E-3"];
+const NUMS: [&str; 20] = ["0", "-0", "1", "1.0", "1e2", "10", "2", "-1.5E-3", "9", "100", "1E+2", "1.00", "0e0", "0.0", "9223372036854775807", "9223372036854775808", "-9223372036854775808", "18446744073709551616", "1e400", "-1e-400"];
 const STRS: [&str; 9] = ["", "a", "b", "a string that is longer than sixteen bytes", "é", "\u{ffff}", "\u{10ffff}", "\u{e000}", "\u{10e000}"];
 
 pub fn gen_v(rng: &mut Rng, depth: usize) -> V {
